@@ -43,7 +43,8 @@ def bell_case(draw):
     if max(abs(v) for v in phi) < 0.2:
         phi[draw(st.integers(0, n - 1))] = 1.0
     return {"nxseg": nxseg, "xi": xi, "fr": fr, "kbw": k, "phi": phi, "fs": draw(st.one_of(st.sampled_from([1.0, 100.0, 2048.0]), st.floats(0.1, 5000))),
-            "over": draw(st.sampled_from([None, None, None, "upper", "lower", "both"])),  # analysis band reaching past the ends of the frequency axis
+            "over": draw(st.sampled_from([None, None, None, "upper", "lower", "both"])),
+            "npmax_np": draw(st.integers(0, 2)) == 0,  # the default number of extrema (20) handed over as a numpy integer  # analysis band reaching past the ends of the frequency axis
             "sel_off": draw(st.floats(-0.4, 0.4)), "scale": 10.0 ** draw(st.one_of(st.floats(-6, 6), st.sampled_from([-20.0, -16.0, -12.0, 8.0]))), "method": draw(st.sampled_from(["EFDD", "FSDD"]))}
 
 
@@ -79,9 +80,11 @@ def judge_bell(case, via_class):
     j.tag(method, f"nx={nx}", f"band-over={over}")
     j.nontrivial(True)
 
+    extra = dict(npmax=np.int64(20)) if case.get("npmax_np") else {}
+
     def run(mat):
         if not via_class:
-            out = sut(fdd.EFDD_mpe, mat.copy(), freq.copy(), dt, [sel], "per", method=method, DF1=DF1, DF2=DF2)
+            out = sut(fdd.EFDD_mpe, mat.copy(), freq.copy(), dt, [sel], "per", method=method, DF1=DF1, DF2=DF2, **extra)
             if raised(out):
                 return out
             return np.asarray(out[0]).reshape(-1), np.asarray(out[1]).reshape(-1), np.asarray(out[2])
@@ -91,7 +94,7 @@ def judge_bell(case, via_class):
         ss.add_algorithms(alg)
         sv = fdd.SD_svalsvec(mat)
         alg.result = EFDDResult(freq=freq.copy(), Sy=mat.copy(), S_val=sv[0], S_vec=sv[1])
-        r = sut(ss.mpe, "a", sel_freq=[sel], DF1=DF1, DF2=DF2)
+        r = sut(ss.mpe, "a", sel_freq=[sel], DF1=DF1, DF2=DF2, **extra)
         if raised(r):
             return r
         return np.asarray(alg.result.Fn).reshape(-1), np.asarray(alg.result.Xi).reshape(-1), np.asarray(alg.result.Phi)
